@@ -30,6 +30,10 @@ QUICK_LITS = [
     ('raw-empty-hash', 'r#""#'), ('raw-cjk', 'r"日本"'),
     ('concat', 'concat!("ab", "cd")'), ('concat-mixed', 'concat!("a", "\\n", r"\\n")'), ('concat-one', 'concat!("x")'),
     ('stringify', 'stringify!(foo)'),
+    ('concat-nested-mid', 'concat!("a", concat!("b", "c"), "d")'), ('concat-nested-first', 'concat!(concat!("a", "b"), "c", "d")'),
+    ('concat-nested-last', 'concat!("a", "b", concat!("c", "d"))'), ('concat-nested-deep', 'concat!(concat!(concat!("a"), "b"), concat!(), "c")'),
+    ('concat-nested-raw', 'concat!("x", concat!(r"\n", "\n"), r#"y"#)'), ('concat-empty', 'concat!()'), ('concat-trailing-comma', 'concat!("a", "b",)'),
+    ('concat-nested-trailing', 'concat!(concat!("a",), "b",)'),
 ]
 
 
@@ -51,8 +55,15 @@ def gen_lits(seed, n):
                 body = body.replace('"#', '"x')
             out.append(("gen%d" % i, 'r%s"%s"%s' % ("#" * h, body, "#" * h)))
         else:
-            parts = ", ".join('"%s"' % "".join(rng.choice(pieces[:17]) for _ in range(rng.randint(0, 2))) for _ in range(rng.randint(0, 3)))
-            out.append(("gen%d" % i, "concat!(%s)" % parts))
+            def cc(depth):
+                parts = []
+                for _ in range(rng.randint(0, 3)):
+                    if depth < 2 and rng.random() < 0.35:
+                        parts.append(cc(depth + 1))
+                    else:
+                        parts.append('"%s"' % "".join(rng.choice(pieces[:17]) for _ in range(rng.randint(0, 2))))
+                return "concat!(%s)" % ", ".join(parts)
+            out.append(("gen%d" % i, cc(0)))
     return out
 
 
@@ -60,7 +71,8 @@ def witness_src(lit):
     return ("#![allow(unused)]\n"
             "pub const TWIN: &str = %s;\n"
             "pub fn pre(p: &mut konst::Parser<'_>) -> u8 { konst::parser_method!{*p, strip_prefix; %s => 1, _ => 0} }\n"
-            "pub fn suf(p: &mut konst::Parser<'_>) -> u8 { konst::parser_method!{*p, strip_suffix; %s => 1, _ => 0} }\n") % (lit, lit, lit)
+            "pub fn suf(p: &mut konst::Parser<'_>) -> u8 { konst::parser_method!{*p, strip_suffix; %s => 1, _ => 0} }\n"
+            "pub fn alt(p: &mut konst::Parser<'_>) -> u8 { konst::parser_method!{*p, strip_prefix; %s | \"zz\" => 1, \"q\" | %s => 2, _ => 0} }\n") % (lit, lit, lit, lit, lit)
 
 
 def run(ctx):
@@ -110,6 +122,13 @@ def run(ctx):
                 disagreements += 1
                 ctx.violation("E12", key + "|bytes", "parser_method! matches bytes %s for the literal %s, rustc gives %s" % (
                     bytes(got), lit, bytes(want)), detail={"literal": lit, "macro": got, "rustc": want})
+        # the literal among other alternatives: what precedes and follows it in the pattern list is not swallowed
+        pats = [p for p in f.get("hir_pats", []) if p["owner"].endswith("::alt") and p["rest"] and not p["after"]]
+        got = [bytes(p["before"]) for p in pats]
+        exp = [bytes(want), b"zz", b"q", bytes(want)]
+        if got != exp:
+            ctx.violation("E12", key + "|alternatives", "`%s | \"zz\" => .., \"q\" | %s => ..` expands to the patterns %s, expected %s" % (lit, lit, got, exp),
+                          detail={"literal": lit, "patterns": pats})
         n_ok += 1
         ctx.instance("E12", key, sample={"literal": lit, "bytes": len(want)})
         if len(samples) < 6:
